@@ -162,14 +162,14 @@ def old_draw_faults(m, meta):
         pass
     out = []
     for cls in (BlockImage, KittyImage):
-        for frames in (3, 1):
+        for frames, animate in ((3, True), (1, True), (3, False)):        # animation, still image, still draw of an animated image
             image = cls(_gif(frames))
             image.set_size(height=2)
             st0 = Stream(0)
             old = sys.stdout
             sys.stdout = st0
             try:
-                image.draw("<", 0, "^", 2, repeat=1)
+                image.draw("<", 0, "^", 2, repeat=1, animate=animate)
             finally:
                 sys.stdout = old
             n_ops = st0.ops
@@ -192,7 +192,7 @@ def old_draw_faults(m, meta):
                     raised = None
                     try:
                         try:
-                            image.draw("<", 0, "^", 2, repeat=1)
+                            image.draw("<", 0, "^", 2, repeat=1, animate=animate)
                         except BaseException as e:      # noqa
                             raised = type(e).__name__
                     finally:
@@ -206,17 +206,66 @@ def old_draw_faults(m, meta):
                         errs.append("a graphics command (APC/OSC/DCS string) left open")
                     if image.size != size0 or image.tell() != seek0:
                         errs.append(f"size/current frame changed: {image.size}, {image.tell()}")
-                    if frames > 1 and raised == "KeyboardInterrupt":
+                    animation = frames > 1 and animate
+                    if animation and raised == "KeyboardInterrupt":
                         errs.append("animation propagated KeyboardInterrupt")
-                    if frames == 1 and exc is KeyboardInterrupt and raised != "KeyboardInterrupt":
-                        errs.append("still image swallowed KeyboardInterrupt")
+                    if not animation and exc is KeyboardInterrupt and raised != "KeyboardInterrupt":
+                        errs.append("still draw swallowed KeyboardInterrupt")
                     if errs:
-                        out.append({"style": cls.__name__, "frames": frames, "fault": exc.__name__, "at stream operation": k, "of": n_ops, "failed": errs})
+                        out.append({"style": cls.__name__, "frames": frames, "animate": animate, "fault": exc.__name__, "at stream operation": k, "of": n_ops, "failed": errs})
                         break
                 if out:
                     break
             if out:
                 break
+            # faults in the k-th render call (the frame request of an animation, the render of a still draw)
+            for exc in (KeyboardInterrupt, Boom):
+                for k in (1, 2, 3):
+                    if out:
+                        break
+                    image = cls(_gif(frames))
+                    image.set_size(height=2)
+                    if frames > 1:
+                        image.seek(2)
+                    size0, seek0 = image.size, image.tell()
+                    calls = {"n": 0}
+                    real = cls._render_image
+
+                    def failing(self, *a, _real=real, _k=k, _exc=exc, **kw):
+                        calls["n"] += 1
+                        if calls["n"] == _k:
+                            raise _exc()
+                        return _real(self, *a, **kw)
+                    cls._render_image = failing
+                    st = Stream(0)
+                    old = sys.stdout
+                    sys.stdout = st
+                    raised = None
+                    try:
+                        try:
+                            image.draw("<", 0, "^", 2, repeat=1, animate=animate)
+                        except BaseException as e:      # noqa
+                            raised = type(e).__name__
+                    finally:
+                        sys.stdout = old
+                        cls._render_image = real
+                    if calls["n"] < k:
+                        continue
+                    vt = VT(width=80, height=30, row=3, col=0).feed("".join(st.data))
+                    errs = []
+                    if not vt.vis:
+                        errs.append("cursor left hidden")
+                    if image.size != size0 or image.tell() != seek0:
+                        errs.append(f"size/current frame changed: now {image.size}, frame {image.tell()} (was frame {seek0})")
+                    animation = frames > 1 and animate
+                    if animation and raised == "KeyboardInterrupt":
+                        errs.append("animation propagated KeyboardInterrupt")
+                    if not animation and exc is KeyboardInterrupt and raised != "KeyboardInterrupt":
+                        errs.append("still draw swallowed KeyboardInterrupt")
+                    if errs:
+                        out.append({"style": cls.__name__, "frames": frames, "animate": animate, "fault": exc.__name__, "at render call": k, "failed": errs})
+            if out:
+                break
         if out:
             break
-    return {"reproduced": bool(out), "input": "fault at every stream operation of old-API draw()", "observed": out[:2]}
+    return {"reproduced": bool(out), "input": "fault at every stream operation and at the first render calls of old-API draw()", "observed": out[:2]}
